@@ -435,3 +435,49 @@ def check_recorded_call(call):
         return ("consumed-more-bytes-than-a-rejection-sampler",
                 "%s consumed %d bytes, the reference rejection sampler %d for the same result" % (desc, len(data), rd.pos))
     return None
+
+
+def walk(run, ncalls, tapecls, first, on_leaf, on_open):
+    """streaming variant of expand(prefix=()) for trees too large to keep: calls on_leaf(cont, outcome) /
+    on_open(cont) instead of storing; -> executions"""
+    nexec = 0
+    stack = [()]
+    while stack:
+        cont = stack.pop()
+        t = tapecls(cont)
+        nexec += 1
+        try:
+            out = run(t)
+        except NeedMore as e:
+            if len(cont) >= ncalls:
+                on_open(cont)
+                continue
+            if first is not None and not cont:
+                ans = tapecls.answers_first(e.n, first)
+            else:
+                ans = tapecls.answers(e.n)
+            if len(cont) == ncalls - 1:
+                for a in ans:
+                    c2 = cont + (a,)
+                    t = tapecls(c2)
+                    try:
+                        out = run(t)
+                    except NeedMore:
+                        on_open(c2)
+                        continue
+                    except Exception as ex:  # noqa
+                        out = ("exc", type(ex).__name__)
+                    if t.pos != len(c2):
+                        raise Diverged("a recorded answer was not consumed on replay")
+                    on_leaf(c2, out)
+                nexec += len(ans)
+            else:
+                for a in reversed(ans):
+                    stack.append(cont + (a,))
+            continue
+        except Exception as ex:  # noqa
+            out = ("exc", type(ex).__name__)
+        if t.pos != len(cont):
+            raise Diverged("a recorded answer was not consumed on replay")
+        on_leaf(cont, out)
+    return nexec
